@@ -611,7 +611,7 @@ impl Env {
             }
             Op::ReopenIndex => {
                 if self.cfg.policy != Policy::NoMerge {
-                    if cx.known_open("orphan_unmanaged_after_writer_drop_during_merge") || crate::known::open_anywhere("orphan_unmanaged_after_writer_drop_during_merge") {
+                    if cx.known_open("orphan_unmanaged_after_writer_drop_during_merge") || (!cx.known.is_probe() && crate::known::open_anywhere("orphan_unmanaged_after_writer_drop_during_merge")) {
                         // known finding (C10): a policy-triggered merge may outlive its writer (drop, rollback)
                         // and keeps registering files through the old Index handle; with a second handle they
                         // end up unmanaged.  While open: keep the same handle (wait for merges, new writer).
